@@ -268,10 +268,32 @@ def lean_stage(ctx, mod):
     for name, module in getattr(mod, "SKELETON_TARGETS", {}).items():
         # skeleton obligations kept in modules of their own: built separately, so that a source change
         # that breaks one is attributed to it and not to the property theorems
+        # value: module name, or (module, audit file, [theorem names]) when the module holds theorems about *translated*
+        # source, whose axioms are audited like the property theorems'
+        sk_audit, sk_thms = None, []
+        if isinstance(module, (tuple, list)):
+            module, sk_audit, sk_thms = module
         with _Lock():
             r2 = _run(["lake", "build", module], LEAN, 900)
-        ok2 = r2.returncode == 0
-        ctx.obligation(name, "generated-skeleton", ok2, "" if ok2 else _first_error((r2.stdout + r2.stderr)[-4000:]))
+            ok2 = r2.returncode == 0
+            detail = "" if ok2 else _first_error((r2.stdout + r2.stderr)[-4000:])
+            if ok2 and sk_audit:
+                a = _run(["lake", "env", "lean", sk_audit], LEAN, 900)
+                out = a.stdout + a.stderr
+                got = {}
+                for m in re.finditer(r"'([^']+)' depends on axioms: \[([^\]]*)\]", out):
+                    got[m.group(1)] = [x.strip() for x in m.group(2).replace("\n", " ").split(",") if x.strip()]
+                for m in re.finditer(r"'([^']+)' does not depend on any axioms", out):
+                    got[m.group(1)] = []
+                axioms.update(got)
+                bad = [t for t in sk_thms if t not in got or [x for x in got[t] if x not in ALLOWED_AXIOMS]]
+                tok = forbidden_tokens([module])
+                if a.returncode != 0 or bad or tok:
+                    ok2 = False
+                    detail = "audit of %s: %s" % (module, "; ".join(bad + tok) or out[-300:])
+                else:
+                    detail = "%d theorems about the translated source, axioms within the allowed set" % len(sk_thms)
+        ctx.obligation(name, "generated-skeleton", ok2, detail)
     ctx.extra["axioms"] = axioms
     return build_ok
 
